@@ -23,8 +23,9 @@ func init() {
 			"(R9) table of who may enter a task into the schedule as overtime: only prepForQueueing (deadline of an already queued task) passes true, Schedule/Repeat/the repeat re-arm pass false, and addToSchedule sets the flag only when asked (the schedule handler starts an overtime task directly). " +
 			"(R10) Queue/QueuePrioritized/StartASAP insert (or move) the task unless it is not ready or already in the target list - membership in another list does not suppress the submission; (R11) the schedule handler sets overtime before it promotes a due task through StartASAP and clears it before it runs an overdue task directly. " +
 			"(R12) the schedule handler starts or promotes the front task only across a test that it is due (a stale timer of a task that left the schedule must not start the next one early); (R13) the queue watcher waits on the execution context captured under the task lock, never on Task.ctx itself. " +
+			"(R14) a (re)starting module accepts tasks: start() clears the stop flag under the lock before the start function runs (= C05-R6). " +
 			"NOT decided: liveness ('every queued task runs'), timing, order under real interleavings; Task.ctx is deliberately outside the lock rule (the source documents the benign race).",
-		Rules: []ruleFn{c07R1, c07R2, c07R3, c07R4, c07R5, c07R6, c07R7, c07R8, c07R9, c07R10, c07R11, c07R12, c07R13},
+		Rules: []ruleFn{c07R1, c07R2, c07R3, c07R4, c07R5, c07R6, c07R7, c07R8, c07R9, c07R10, c07R11, c07R12, c07R13, borrowRule(c05R6, "C05-R6", "C07-R14", 2, nil)},
 	})
 }
 
